@@ -18,6 +18,33 @@ void HistSim::opDeser(const Op& op, size_t ix) {
   Val v = parseText(op.str("v"));
   normalise(v, kUseDouble);
   bool mp = op.str("fmt") == "mp";
+  if (!mp && !kDecodeUnicode) {
+    // without unicode decoding a NUL cannot travel in a JSON string: keep it out of text and model
+    visit(v, [](Val& x) {
+      for (auto& c : x.s)
+        if (c == 0 && x.k == K::Str)
+          c = 'z';
+      for (auto& m : x.o)
+        for (auto& c : m.first)
+          if (c == 0)
+            c = 'z';
+    });
+    // (keys made equal by the replacement: keep the first)
+    visit(v, [](Val& x) {
+      if (x.k != K::Obj)
+        return;
+      std::vector<std::pair<std::string, Val>> keep;
+      for (auto& m : x.o) {
+        bool dup = false;
+        for (auto& k : keep)
+          if (k.first == m.first)
+            dup = true;
+        if (!dup)
+          keep.push_back(m);
+      }
+      x.o = keep;
+    });
+  }
   int doc = h->doc;
   Val* node = findNode(doc, h->node);
   // optional sub-selector: deserializeX(h[sel], …)
@@ -55,6 +82,7 @@ void HistSim::opDeser(const Op& op, size_t ix) {
     JsonSpelling sp;
     sp.nan = kNaN;
     sp.inf = kInf;
+    sp.rawControl = !kDecodeUnicode;
     RefJsonWriter w(sp);
     bytes = w.write(v);
   }
@@ -309,7 +337,11 @@ void HistSim::opFill(const Op& op, size_t ix) {
       if (lastOpFaults_ == 0 && allocs_[size_t(ds.alloc < 0 ? 0 : ds.alloc)]->nFaultsFiredOp == 0) {
         auto g = verif::Inspector::geometry(*ds.doc);
         size_t limit = size_t(verif::Inspector::NULLSLOT);
-        if (g.freeListLen != 0 || g.usedSlots + 2 < limit)
+        size_t need = kind == "big" ? 2 : 1;  // a 64-bit number takes a value slot and an extension slot
+        if (g.usedSlots > limit)
+          violate("C19:id-wrap", "more slots handed out (" + std::to_string(g.usedSlots) + ") than slot ids exist (" +
+                                     std::to_string(limit) + ")");
+        if ((limit - g.usedSlots) + g.freeListLen >= need)
           violate("C19:premature-limit", "add() failed although " + std::to_string(limit - g.usedSlots) +
                                              " slot ids and " + std::to_string(g.freeListLen) +
                                              " free slots remain (used " + std::to_string(g.usedSlots) + ")");
